@@ -188,6 +188,64 @@ Theorem C04s_chunk_corruption_not_accepted : forall (s t s' : rp_io),
 Proof. exact rr_C04_chunk_corruption. Qed.
 Print Assumptions C04s_chunk_corruption_not_accepted.
 
+(* the same with the return code: JLS_ERROR_MESSAGE_INTEGRITY.  Header case: *)
+Theorem C04s_chunk_header_corruption_code : forall (s t s' : rp_io) (e : list N),
+  rp_flen s = rp_len (rp_file s) ->
+  (rp_r_valid (rp_r s) = true ->
+     length (fm_sub (rp_offset (rp_r s)) 32 (rp_file s)) = 32%nat /\
+     fm_ch_crc_ok (fm_sub (rp_offset (rp_r s)) 32 (rp_file s)) = true /\
+     rp_hdr (rp_r s) = fm_ch_fields (fm_sub (rp_offset (rp_r s)) 32 (rp_file s))) ->
+  rp_flen t = rp_len (rp_file t) ->
+  (rp_r_valid (rp_r t) = true ->
+     length (fm_sub (rp_offset (rp_r t)) 32 (rp_file t)) = 32%nat /\
+     fm_ch_crc_ok (fm_sub (rp_offset (rp_r t)) 32 (rp_file t)) = true /\
+     rp_hdr (rp_r t) = fm_ch_fields (fm_sub (rp_offset (rp_r t)) 32 (rp_file t))) ->
+  rp_r t = rp_r s -> bytes_ok (rp_file s) ->
+  rp_rd_chunk s = (s', 0) ->
+  bytes_ok e -> length e = 32%nat -> le e <> 0 ->
+  ((weight (le e) <= 3)%nat \/
+   (exists (v : N) (k : nat), 0 < v /\ v < 2 ^ 32 /\ (k <= 256)%nat /\ le e = N.shiftl v (N.of_nat k))) ->
+  rp_file t = firstn (N.to_nat (rp_offset (rp_r s))) (rp_file s)
+              ++ xor_bytes (firstn 32 (skipn (N.to_nat (rp_offset (rp_r s))) (rp_file s))) e
+              ++ skipn (N.to_nat (rp_offset (rp_r s)) + 32) (rp_file s) ->
+  snd (rp_rd_chunk t) = JLS_ERROR_MESSAGE_INTEGRITY.
+Proof. exact rr_C04_chunk_header_code. Qed.
+Print Assumptions C04s_chunk_header_corruption_code.
+
+(* payload case (for a chunk whose tag is not JLS_TAG_INVALID = 0: the writer never produces tag 0) *)
+Theorem C04s_chunk_payload_corruption_code : forall (s t s' : rp_io) (e esb pad' : list N),
+  rp_flen s = rp_len (rp_file s) ->
+  (rp_r_valid (rp_r s) = true ->
+     length (fm_sub (rp_offset (rp_r s)) 32 (rp_file s)) = 32%nat /\
+     fm_ch_crc_ok (fm_sub (rp_offset (rp_r s)) 32 (rp_file s)) = true /\
+     rp_hdr (rp_r s) = fm_ch_fields (fm_sub (rp_offset (rp_r s)) 32 (rp_file s))) ->
+  rp_flen t = rp_len (rp_file t) ->
+  (rp_r_valid (rp_r t) = true ->
+     length (fm_sub (rp_offset (rp_r t)) 32 (rp_file t)) = 32%nat /\
+     fm_ch_crc_ok (fm_sub (rp_offset (rp_r t)) 32 (rp_file t)) = true /\
+     rp_hdr (rp_r t) = fm_ch_fields (fm_sub (rp_offset (rp_r t)) 32 (rp_file t))) ->
+  rp_r t = rp_r s -> bytes_ok (rp_file s) ->
+  rp_rd_chunk s = (s', 0) ->
+  let off := rp_offset (rp_r s) in
+  let pl := fm_payload_length (wm_ck_hdr (rp_cur s')) in
+  let dl := fm_disk_len pl in
+  let p := off + 32 in
+  fm_tag (wm_ck_hdr (rp_cur s')) <> JLS_TAG_INVALID -> pl <> 0 ->
+  bytes_ok e -> bytes_ok esb ->
+  length e = N.to_nat pl -> length esb = 4%nat -> length pad' = N.to_nat (dl - pl - 4) ->
+  N.of_nat (8 * length (e ++ esb)) <= 2147483647 -> le (e ++ esb) <> 0 ->
+  ((weight (le (e ++ esb)) <= 3)%nat \/
+   (exists (v : N) (k : nat), 0 < v /\ v < 2 ^ 32 /\ (k <= 8 * length (e ++ esb))%nat /\
+      le (e ++ esb) = N.shiftl v (N.of_nat k))) ->
+  rp_file t = firstn (N.to_nat p) (rp_file s)
+              ++ xor_bytes (firstn (N.to_nat pl) (skipn (N.to_nat p) (rp_file s))) e
+              ++ pad'
+              ++ xor_bytes (firstn 4 (skipn (N.to_nat (p + dl - 4)) (rp_file s))) esb
+              ++ skipn (N.to_nat (p + dl)) (rp_file s) ->
+  snd (rp_rd_chunk t) = JLS_ERROR_MESSAGE_INTEGRITY.
+Proof. exact rr_C04_chunk_payload_code. Qed.
+Print Assumptions C04s_chunk_payload_corruption_code.
+
 (* the pad bytes: replaced by arbitrary bytes, the payload read gives the same return code and the same
    payload bytes in the buffer (no reader function returns pad bytes; they are outside every CRC) *)
 Theorem C04s_pad_irrelevant : forall (s t : rp_io) (max : N) (pad' : list N),
